@@ -399,6 +399,61 @@ def patch_elasticity(m, selem, deg, rng, intorder=None):
 
 # ------------------------------------------------------------------------------------ projection identities
 
+def patch_sequence(m, selem, deg, rng):
+    """several boundary-DOF queries and problems on ONE long-lived basis, in random order; every query must return what
+    the same query returns on a fresh basis (no state may leak from one call of get_dofs into the next), and the clamped
+    elasticity patch test solved with the long-lived basis must still reproduce the exact solution"""
+    from skfem import Basis, FacetBasis, LinearForm, ElementVector, solve, condense
+    from skfem.helpers import dot
+    from skfem.models.elasticity import linear_elasticity
+    dim = m.dim()
+    elem = ElementVector(selem)
+    basis = Basis(m, elem)
+    names = sorted(set(elem.dofnames))
+    bf = m.boundary_facets()
+    nt = m.t.shape[1]
+    steps = [('skip', {'skip': [names[int(rng.integers(0, len(names)))]]}),
+             ('all', {}),
+             ('skip', {'skip': [names[int(rng.integers(0, len(names)))]]}),
+             ('facets', {'facets': np.sort(bf[rng.permutation(len(bf))[:int(rng.integers(1, len(bf) + 1))]])}),
+             ('facets+skip', {'facets': np.sort(bf[rng.permutation(len(bf))[:int(rng.integers(1, len(bf) + 1))]]),
+                              'skip': [names[int(rng.integers(0, len(names)))]]}),
+             ('elements', {'elements': np.sort(rng.permutation(nt)[:int(rng.integers(1, nt + 1))])}),
+             ('all', {})]
+    order = rng.permutation(len(steps))
+    trace, worst = [], 0.0
+    lam, mu = 2.0, 1.0
+    U = [Poly.random(dim, deg, rng) for _ in range(dim)]
+    G = [[U[i].d(j) for j in range(dim)] for i in range(dim)]
+    tr = Poly(dim)
+    for k in range(dim):
+        tr = tr + G[k][k]
+    S = [[(G[i][j] + G[j][i]).scale(mu) + (tr.scale(lam) if i == j else Poly(dim)) for j in range(dim)] for i in range(dim)]
+    F = []
+    for i in range(dim):
+        f = Poly(dim)
+        for j in range(dim):
+            f = f + S[i][j].d(j)
+        F.append(f.scale(-1.0))
+    A = linear_elasticity(lam, mu).assemble(basis)
+    b = LinearForm(lambda v, w: dot(np.array([F[i](w.x) for i in range(dim)]), v)).assemble(basis)
+    xstar = basis.project(lambda x: np.array([U[i](x) for i in range(dim)]))
+    for s in order:
+        kind, kw = steps[s]
+        got = np.sort(basis.get_dofs(**kw).flatten())
+        ref = np.sort(Basis(m, elem).get_dofs(**kw).flatten())
+        desc = kind + (':' + ','.join(kw['skip']) if 'skip' in kw else '')
+        trace.append(desc)
+        if not np.array_equal(got, ref):
+            return 1.0, {'what': 'get_dofs on a long-lived basis differs from the same query on a fresh basis', 'sequence': trace,
+                         'elem': 'ElementVector(' + type(selem).__name__ + ')', 'got': got.tolist(), 'fresh': ref.tolist()}
+        if kind == 'all':
+            x = solve(*condense(A, b, x=xstar, D=basis.get_dofs()))
+            worst = max(worst, relerr(x, xstar))
+    return worst, {'what': 'sequence of get_dofs queries / clamped patch tests on one basis', 'sequence': trace,
+                   'elem': 'ElementVector(' + type(selem).__name__ + ')', 'N': int(basis.N)}
+
+
 def projection_whole(m, elem, rng, intorder=None):
     from skfem import Basis
     kw = {} if intorder is None else {'intorder': intorder}
